@@ -56,6 +56,9 @@ CHECKS = {
  "C27": dict(cat="exploration", tech="exhaustive enumeration of pysdmx DataType x Role x object kind + Hypothesis structures; oracle = documented mapping tables",
    text="Every SDMX data type and role as Schema / DataStructureDefinition / Dataflow through to_vtl_json and semantic_analysis, plus run_sdmx on in-memory PandasDatasets and generated structures of 1-5 components: documented role, type and nullability per component; undocumented types must raise InputValidationException.",
    note="SDMX-ML/JSON files and URLs are not exercised (no xml extra, no network).", ref="§3 C27"),
+ "C30": dict(cat="exploration", tech="exhaustive enumeration of both precision settings (-5..45) in fresh subprocesses + Hypothesis sequences of settings within one process; oracle = documented ranges and exact decimal arithmetic",
+   text="Every integer value of each variable and the boundary cross product (thorough: all 51x51 pairs), each in a fresh process: documented accept/reject (error 0-4-1-1), stored values quantised to the scale, out-of-precision values rejected, sums/differences equal exact decimals; sequences of settings in one process must behave like fresh processes.",
+   note="Returned values are float64, compared with the exact decimal result within a few ulps; a width smaller than the scale may be rejected with the configuration error.", ref="§3 C30"),
 }
 NOT_YET = "check not built yet in this session (work in progress, see DESIGN.md §5)"
 
